@@ -572,3 +572,10 @@ class ConnectedRemotePeer(RemotePeer):
                                                                     ban_score=0)
 
             nm._sanity_check()
+
+
+# verification hooks: wrap the message handler only when SKEPTICOIN_VERIF=1 and a trace file is named (see skepticoin/_verif.py)
+from skepticoin import _verif  # noqa: E402
+if _verif.ENABLED:
+    ConnectedRemotePeer.handle_message_received = _verif.wrap_handle_message_received(  # type: ignore
+        ConnectedRemotePeer.handle_message_received)
